@@ -38,7 +38,7 @@ def run_line(line):
     exc = None
     if t[1] != "-":
         data = bytes.fromhex(t[1])
-        trx.ctrl_if.sock.inq.append((data, (trx.remote_addr, trx.ctrl_if.remote_port)))
+        trx.ctrl_if.sock.deliver(data, (trx.remote_addr, trx.ctrl_if.remote_port))
         try:
             trx.ctrl_if.handle_rx()
         except Exception as e:
